@@ -366,7 +366,36 @@ func (s *State) ApplyOperator(name OpName, args []pdf.Object) error {
 		}
 	}
 
+	// BT/ET and BMC/BDC/EMC pairs must be properly nested with respect to
+	// each other (ISO 32000-2, 14.6.1: "BT BMC ET EMC" and "BMC BT EMC ET"
+	// are not valid).  ApplyStateChanges tolerates cross-nested pairs when
+	// reading; a builder must not produce them.
+	switch name {
+	case OpTextEnd:
+		if err := s.checkInnermost(pairBT, pairBMC, "ET inside a marked-content sequence opened in the text object"); err != nil {
+			return err
+		}
+	case OpEndMarkedContent:
+		if err := s.checkInnermost(pairBMC, pairBT, "EMC in a text object for a marked-content sequence opened outside"); err != nil {
+			return err
+		}
+	}
+
 	return s.ApplyStateChanges(name, args)
+}
+
+// checkInnermost returns an error if, among the open frames of the two given
+// kinds, the innermost one is of kind other rather than of kind want.
+func (s *State) checkInnermost(want, other pairType, msg string) error {
+	for i := len(s.nesting) - 1; i >= 0; i-- {
+		switch s.nesting[i].Kind {
+		case want:
+			return nil
+		case other:
+			return fmt.Errorf("%s: %w", msg, ErrInvalidContext)
+		}
+	}
+	return nil
 }
 
 // allSubpathsClosed reports whether every subpath in the current path is closed.
